@@ -192,11 +192,39 @@ def rule_r4(ctx):
                 ctx.fail(r, f, "header write without capacity test", s.line, "%s writes the header without passing its capacity test" % name)
 
 
+def rule_r6(ctx):
+    r = ctx.rule("C13.R6", "T2", "a reflector device (both ends the same socket) runs a single forwarder: in device_init the edge "
+                 "s1 == s2 leads to num_paths = 1 before the paths are set up (two forwarders on one socket race and reorder one "
+                 "peer's messages)", floor=1)
+    f = ctx.prog.need("device_init", "core/device.c")
+    prm = [p_["n"] for p_ in f.params if "nni_sock" in p_.get("t", "")]
+    if len(prm) < 2:
+        raise AnalysisBroken("device_init: socket parameters not found")
+    same = G.rel_edges(f, lambda n: n.get("k") == "var" and n["n"] == prm[0], lambda n: n.get("k") == "var" and n["n"] == prm[1], "==")
+    same.update(G.rel_edges(f, lambda n: n.get("k") == "var" and n["n"] == prm[1], lambda n: n.get("k") == "var" and n["n"] == prm[0], "=="))
+    ones = [t for t in f.assigns() if t.node["lhs"].get("k") == "var" and "path" in t.node["lhs"]["n"] and const_of(f.expand(t.node["rhs"])) == 1]
+    uses = [s for s in f.assigns() if G.field_is(s.node["lhs"], "num_paths") and const_of(f.expand(s.node["rhs"])) is None]
+    if not same or not ones or not uses:
+        ctx.fail(r, f, "reflector not reduced to one forwarder", f.line,
+                 "device_init no longer sets the number of paths to 1 when both sockets are the same one")
+        return
+    ok = True
+    for b, k in same.items():
+        tgt = f.blocks[b].succs[k]
+        if tgt is not None and G.must_pass(f, (tgt, 0), G.positions(ones), stop=G.positions(uses)):
+            ok = False
+    if ok:
+        r.ob(f, "s1 == s2 always reaches num_paths = 1")
+    else:
+        ctx.fail(r, f, "reflector not reduced to one forwarder", f.line, "the s1 == s2 edge can reach the path set-up with two paths")
+
+
 def run(ctx):
     ctx.guard(rule_r1)
     ctx.guard(rule_r2)
     ctx.guard(rule_r3)
     ctx.guard(rule_r4)
+    ctx.guard(rule_r6)
     ctx.guard(c04.rule_r6)
     for rr in ctx.rules:
         if rr.id.startswith("C04."):
